@@ -404,6 +404,10 @@ def pad(t, p, mode="constant", value=0):
     for k in range(len(p) // 2):
         widths[t.a.ndim - 1 - k] = (p[2 * k], p[2 * k + 1])
     fill = T.cast_scalar(value if value is not None else 0, t.dtype)
+    # negative widths crop (torch semantics): apply them as slices first
+    crop = tuple(slice(max(0, -w[0]), s - max(0, -w[1])) for s, w in zip(t.a.shape, widths))
+    t = Tensor(t.a[crop], t.dtype)
+    widths = [(max(0, w[0]), max(0, w[1])) for w in widths]
     shp = tuple(s + w[0] + w[1] for s, w in zip(t.a.shape, widths))
     out = np.empty(shp, dtype=object)
     out.fill(fill)
